@@ -18,7 +18,8 @@ from ttvc.oblig import scenario
 from .common import *
 from . import c18 as _c18
 from .c04 import sum_over
-from ttvc.tensors import STensor
+from ttvc.tensors import STensor, SymScalar, to_int
+from ttvc.terms import Term
 from ttvc.terms import fresh_int
 
 LEVEL = 'other'
@@ -239,3 +240,92 @@ def interfaces(ob, which, d, k):
         ob.prove_eq('rhs_forward_interface_is_the_dot_product', lf.at([0, 0]), wb)
         ob.prove_eq('rhs_backward_interface_is_the_dot_product', rt.at([0, 0]), wb)
     ob.frame()
+
+
+@scenario('C12', 'local_system.first_step', ['torchtt.solvers._amen_solve_python'],
+          quick=[dict(d=2, guess=g, direct=True) for g in (False, True)] + [dict(d=2, guess=False, direct=False)], replay=None, max_paths=400)
+def local_system_first_step(ob, d, guess, direct):
+    """call-site contract inside the real sweep: at the first local solve of the first sweep of amen_solve the system handed to
+    torch.linalg.solve (direct branch) is assembled from the CURRENT interfaces of the sweep with the right index roles
+         B[(l,m,L),(r,n,R)] = SUM_{s,S} Phis[k][l,s,r] A_k[s,m,n,S] Phis[k+1][L,S,R]
+         rhs[(r,m,R)]       = nrmsc * SUM_{b,B} Phis_b[k][b,r] b_k[b,m,B] Phis_b[k+1][B,R]
+    and in the iterative branch the operator object is built from exactly Phis[k], Phis[k+1], A.cores[k] and the shape
+    [rx[k], N[k], rx[k+1]].  (The interfaces themselves are the projections -- scenario `interfaces`; the operator object --
+    scenario `local_operator.matvec`.)  The path ends at that call: nothing after it is claimed."""
+    from . import hooks
+    ex = ob.ex
+    hooks.install(ex)
+    hooks.install_solvers(ex)
+    N = H.sym_sizes(ex, 'n', d)
+    A = ob.tt('A', d, ttm=True, N=N, M=N, dtype='float64')
+    b = ob.tt('b', d, N=N, dtype='float64')
+    g = ob.tt('g', d, N=N, dtype='float64') if guess else None
+    seen = []
+
+    def frame_of_sweep():
+        for fr in reversed(ex.frames):
+            if fr.func is not None and fr.func.qualname.endswith('_amen_solve_python'):
+                return fr
+        return None
+
+    def on_solve(ex_, args, kwargs):
+        fr = frame_of_sweep()
+        if fr is None:
+            return NotImplemented
+        seen.append('solve')
+        B, rhs = args[0], args[1]
+        L = fr.locals
+        k = L['k']
+        Pl, Pr, Pbl, Pbr = L['Phis'][k], L['Phis'][k + 1], L['Phis_b'][k], L['Phis_b'][k + 1]
+        Ak, bk, rx, nrmsc = L['A'].attrs['cores'][k], L['b'].attrs['cores'][k], L['rx'], L['nrmsc']
+        ob.prove('first_solve_is_core_0', k == 0)
+        sizes = [rx[k], L['N'][k], rx[k + 1]]
+        exp = [T.Factor(T.sz(to_int(s_)) if not isinstance(s_, int) else s_) for s_ in sizes]
+        i = []
+        for s_ in sizes + sizes:
+            if T.known_eq(s_, 1):
+                i.append(0)
+            else:
+                v = fresh_int('q')
+                ex_.assume(z3.And(v >= 0, v < to_int(s_)))
+                i.append(v)
+        l_, m_, L_, r_, n_, R_ = i
+        row = T.align_factors((l_, m_, L_), exp, B.axes[0].factors)
+        col = T.align_factors((r_, n_, R_), exp, B.axes[1].factors)
+        if B._val is None or row is None or col is None:
+            ob.undecided('local_matrix', 'value', 'unexpected structure of the matrix handed to linalg.solve: %s' % (B.axes,))
+            raise I.PathEnd()
+        want = sum_over(ex_, [Pl.shape[1], Pr.shape[1]], lambda js: Pl.at([l_, js[0], r_]) * Ak.at([js[0], m_, n_, js[1]]) * Pr.at([L_, js[1], R_]))
+        ob.prove_eq('local_matrix_is_assembled_from_the_interfaces', B.at([row, col]), want)
+        rrow = T.align_factors((l_, m_, L_), exp, rhs.axes[0].factors)
+        if rhs._val is not None and rrow is not None:
+            sc = Term.of(nrmsc.real() if isinstance(nrmsc, SymScalar) else nrmsc) if not isinstance(nrmsc, STensor) else nrmsc.at([])
+            wantb = sum_over(ex_, [Pbl.shape[0], Pbr.shape[0]], lambda js: Pbl.at([js[0], l_]) * bk.at([js[0], m_, js[1]]) * Pbr.at([js[1], L_])) * sc
+            ob.prove_eq('local_rhs_is_assembled_from_the_rhs_interfaces', rhs.at([rrow, (0,)]), wantb)
+        else:
+            ob.undecided('local_rhs', 'value', 'unexpected structure of the right-hand side')
+        raise I.PathEnd()
+
+    def on_linear_op(ex_, f, args, kwargs):
+        fr = frame_of_sweep()
+        if fr is None:
+            return NotImplemented
+        seen.append('op')
+        L = fr.locals
+        k = L['k']
+        _self, Pl, Pr, coreA, shape = args[0], args[1], args[2], args[3], args[4]
+        ob.prove('operator.left_interface_is_Phis_k', Pl is L['Phis'][k])
+        ob.prove('operator.right_interface_is_Phis_k_plus_1', Pr is L['Phis'][k + 1])
+        ob.prove('operator.core_is_A_k', coreA is L['A'].attrs['cores'][k])
+        all_eq(ob, 'operator.shape', list(shape), [L['rx'][k], L['N'][k], L['rx'][k + 1]])
+        raise I.PathEnd()
+    ex.ext_hooks = {'torch.linalg.solve': on_solve}
+    ex.call_hooks['torchtt.solvers._LinearOp.__init__'] = on_linear_op
+    if direct:
+        ex.assume(N[0] * 8 < 400)
+    f = ex.module('torchtt.solvers').env['_amen_solve_python']
+    try:
+        ex.call(f, [A, b], {'nswp': 1, 'x0': g, 'max_full': 500 if direct else 0, 'local_solver': 1})
+    finally:
+        pass
+    ob.fail('local_solve_reached', 'post', 'the sweep finished without a local solve')
